@@ -20,9 +20,9 @@ def check(chk: Check) -> None:
     R1 = chk.rule('C04.R1', 'multiplicative operators run on Decimals behind a numeric guard: at every *, **, << site '
                             'applied to program values (operators, compound assignment, compound index assignment) both '
                             'operands are explicit Decimal(...) conversions on every path, and for * both are dominated by an '
-                            'isinstance(numeric types) guard', floor=4)
+                            'isinstance(numeric types) guard', floor=2)
     R2 = chk.rule('C04.R2', 'unbounded Python ints are re-rounded before they escape: no numeric builtin returns '
-                            'Decimal(<Python int of unbounded size>) (exact constructor) without a context-rounding step', floor=6)
+                            'Decimal(<Python int of unbounded size>) (exact constructor) without a context-rounding step', floor=4)
     R3 = chk.rule('C04.R3', 'the decimal context is never touched anywhere in the package', floor=1)
     chk.decided += ['clause 1: every multiplicative site computes Decimal x Decimal (context-rounded or ArithmeticError) and * refuses non-numbers (R1)',
                     'clause 2, conversion builtins: which of them can return a number wider than its argument (R2)',
@@ -50,7 +50,7 @@ def check(chk: Check) -> None:
                 from .c03 import numeric_proven
                 if all(_local_number(x) for x in (l, r)):
                     continue
-                arm = label[label.index(' [op='):] if ' [op=' in label else ''
+                arm = label[label.index(' [op='):] if (' [op=' in label and not e.depth()) else ''
                 unit = e.fn if e.depth() else label.split(' [')[0]
                 key = '%s%s :: `%s`' % (unit, arm, e.text())
                 wh = '%s:%d' % (fi.module.rel, e.line)
